@@ -75,6 +75,7 @@ def page_chain(ctx, w, prefs, k, crawled_only, clause_prefix="C09", between=None
         ctx.check(clause_prefix + ".counts", a["count"] == len(pages) and a["count_crawled"] == sum(1 for p in pages if p["crawled"]), lambda: "count fields %r/%r do not match contents (%d pages)" % (a["count"], a["count_crawled"], len(pages)))
         if a["done"]:
             ctx.check(clause_prefix + ".final", "token" not in a or not a.get("token"), lambda: "final answer carries a token")
+            ctx.check(clause_prefix + ".final", k is None or len(pages) <= k, lambda: "the final answer holds %d pages, %r were requested per answer" % (len(pages), k))
             break
         ctx.check(clause_prefix + ".nonfinal_size", k is not None and len(pages) == k, lambda: "non-final answer holds %d pages, %r requested" % (len(pages), k))
         ctx.check(clause_prefix + ".nonfinal_token", bool(a.get("token")), lambda: "non-final answer without token")
@@ -322,6 +323,8 @@ def sweep_C10(ctx):
             sizes = sorted({1, 2, 3, max(1, nsrc), nsrc + 1})
             if len(sizes) > 3:
                 sizes = sorted(ctx.obs_rng.sample(sizes, 3))
+            if nsrc > 258:
+                sizes = [257]  # a page size beyond the small-integer range
             for k in sizes + [None]:
                 token = None
                 got = []
@@ -337,6 +340,7 @@ def sweep_C10(ctx):
                     got.extend(pl)
                     if a["done"]:
                         ctx.check("C10.final", not a.get("token"), lambda: "final answer carries a token")
+                        ctx.check("C10.final", k is None or len(srcs) <= k, lambda: "the final answer covers %d source pages, %r were requested per answer" % (len(srcs), k))
                         break
                     ctx.check("C10.nonfinal", k is not None and len(srcs) == k and bool(a.get("token")), lambda: "non-final answer covers %d sources (k=%r) token=%r" % (len(srcs), k, a.get("token")))
                     token = a["token"]
@@ -441,6 +445,7 @@ def run_linkpager(ctx, scen):
                             exp[x] = n
             ctx.check("C10.resumed_answer", d == exp, lambda: "call %d (token %r): links reported for source %s are %s; as the index stands the unpaginated query gives %s" % (calls, token, short(s), short(sorted(d.items())), short(sorted(exp.items()))))
         if a["done"]:
+            ctx.check("C10.resumed_size", len(by_src) <= k, lambda: "the final answer covers %d source pages, %d were requested per answer" % (len(by_src), k))
             break
         ctx.check("C10.resumed_size", len(by_src) == k and bool(a.get("token")), lambda: "non-final answer covers %d source pages (k=%d) or carries no token" % (len(by_src), k))
         token = a["token"]
